@@ -18,6 +18,17 @@ using verif::Rng;
 
 constexpr long NOARG = -0x7fffffffL;
 
+// progress of the (single) case thread, sampled by the CPU-time watchdog in c14_main.cpp
+inline std::atomic<uint64_t> g_opSeq{0};
+inline char g_curOp[96]; // kind of the operation in flight (racy read by the watchdog is fine: fixed buffer)
+inline void noteProgress(const char* what) {
+  if (what) {
+    strncpy(g_curOp, what, sizeof g_curOp - 1);
+    g_curOp[sizeof g_curOp - 1] = 0;
+  }
+  g_opSeq.store(g_opSeq.load(std::memory_order_relaxed) + 1, std::memory_order_relaxed);
+}
+
 struct Case {
   verif::Harness& H;
   long k;
@@ -68,6 +79,7 @@ struct Case {
   void op(const char* name, long a = NOARG, long b = NOARG) {
     ++ops;
     lastOp = name;
+    noteProgress(name);
     kinds.insert(lastOp);
     std::string s = name;
     if (a != NOARG) {
@@ -160,6 +172,7 @@ struct Case {
 template <typename It, typename End>
 bool checkSeq(Case& c, const char* what, It b, End e, const std::vector<int>& expected) {
   ++c.checks;
+  noteProgress(nullptr);
   if (c.bad)
     return false;
   std::vector<int> got;
@@ -185,6 +198,7 @@ bool checkSeq(Case& c, const char* what, It b, End e, const std::vector<int>& ex
 template <typename It, typename End>
 bool checkBag(Case& c, const char* what, It b, End e, std::vector<int> expected, std::vector<int>* order = nullptr) {
   ++c.checks;
+  noteProgress(nullptr);
   if (c.bad)
     return false;
   std::vector<int> got;
